@@ -15,6 +15,12 @@ import (
 
 func ValidateDiff(en1 string, en2_size uint, job_diff uint64, version_mask string,
 	job *stratumv1_message.MiningNotify, submit *stratumv1_message.MiningSubmit) (uint64, bool) {
+	return ValidateDiffFloat(en1, en2_size, float64(job_diff), version_mask, job, submit)
+}
+
+// ValidateDiffFloat is ValidateDiff for a job difficulty that may be fractional
+func ValidateDiffFloat(en1 string, en2_size uint, job_diff float64, version_mask string,
+	job *stratumv1_message.MiningNotify, submit *stratumv1_message.MiningSubmit) (uint64, bool) {
 	var prev_hash string
 	var gen1 string
 	var gen2 string
@@ -72,7 +78,15 @@ func ValidateDiff(en1 string, en2_size uint, job_diff uint64, version_mask strin
 	b.SetUint64(0xffff)
 	b.Lsh(b, 208)
 	t.Div(b, h)
-	return t.Uint64(), t.Uint64() >= job_diff
+
+	// the share meets the difficulty when diff1_target / hash >= job_diff,
+	// that is job_diff * hash <= diff1_target, compared exactly
+	need := new(big.Rat).SetFloat64(job_diff)
+	if need == nil {
+		return t.Uint64(), false
+	}
+	need.Mul(need, new(big.Rat).SetInt(h))
+	return t.Uint64(), need.Cmp(new(big.Rat).SetInt(b)) <= 0
 }
 
 func reverse(bytes []byte) []byte {
